@@ -354,6 +354,11 @@ class Pervaporation:
             )
 
         for step in range(len(time)):
+            if not feed_mass[step] > 0:
+                raise ValueError(
+                    "Feed is exhausted at step %s: decrease delta_hours or number_of_steps"
+                    % step
+                )
             partial_fluxes.append(
                 self.calculate_partial_fluxes(
                     feed_temperature=conditions.initial_feed_temperature,
@@ -471,6 +476,16 @@ class Pervaporation:
         feed_mass: typing.List[float] = [conditions.initial_feed_amount]
 
         for step in range(len(time)):
+            if not feed_mass[step] > 0:
+                raise ValueError(
+                    "Feed is exhausted at step %s: decrease delta_hours or number_of_steps"
+                    % step
+                )
+            if not feed_temperature[step] > 0:
+                raise ValueError(
+                    "Feed temperature is not positive at step %s: decrease delta_hours"
+                    % step
+                )
 
             evaporation_heat_1 = (
                 self.mixture.first_component.get_vaporisation_heat(
@@ -1063,6 +1078,11 @@ class Pervaporation:
             )
 
         for step in range(len(time)):
+            if not feed_mass[step] > 0:
+                raise ValueError(
+                    "Feed is exhausted at step %s: decrease delta_hours or number_of_steps"
+                    % step
+                )
 
             partial_fluxes.append(
                 self.calculate_partial_fluxes(
@@ -1335,6 +1355,16 @@ class Pervaporation:
         )
 
         for step in range(len(time)):
+            if not feed_mass[step] > 0:
+                raise ValueError(
+                    "Feed is exhausted at step %s: decrease delta_hours or number_of_steps"
+                    % step
+                )
+            if not feed_temperature[step] > 0:
+                raise ValueError(
+                    "Feed temperature is not positive at step %s: decrease delta_hours"
+                    % step
+                )
 
             evaporation_heat_1 = (
                 self.mixture.first_component.get_vaporisation_heat(
